@@ -404,7 +404,28 @@ theorem Reachable.runSched {c : Cfg} {fix : Patch} {files : Files} {st : State} 
   | nil => exact h
   | cons x xs ih => exact ih (Reachable.step x.1 x.2 h)
 
-/-- the code as it is at HEAD: the stage-index fix (F21) is committed, the other two patches are not -/
-def _root_.SV.Stg.Patch.head : Patch := ⟨false, false, true⟩
+/-- the step is a POLL: the walker looks for an output file that is not there yet (it asks again later), or
+`scheduleNextJob` finds no free worker during the ramp-up delay (it asks again after a tick) -/
+def polls (st : State) (idx : Nat) (elapsed : Bool) : Bool :=
+  match st.bag[idx]? with
+  | some (.downloadCurrent seg) =>
+    (match (exec { st with bag := st.bag.eraseIdx idx } (.downloadCurrent seg)).2 with
+     | .msg .fileNotPresent => true
+     | _ => false)
+  | some .scheduleNextJob | some .tick =>
+    let r := st.pool.workerAvailable elapsed
+    !r.2.1 && r.2.2
+  | _ => false
+
+/-- `b` is the result of a step of the reachable, running state `a` that executes a command and is not a poll -/
+def WorkStep (c : Cfg) (fix : Patch) (files : Files) (b a : State) : Prop :=
+  Reachable c fix files a ∧ ∃ idx elapsed, a.ended = none ∧ idx < a.bag.length ∧ polls a idx elapsed = false ∧
+    b = step a idx elapsed
+
+/-- the code at HEAD: the three fixes are committed -/
+def _root_.SV.Stg.Patch.head : Patch := ⟨true, true, true⟩
+/-- the code before the fixes d60dce44 (`dependenciesCompleted`) and 9da4cc23 (`markShadowedUnits`), after the
+stage-index fix 38ce9883: what the witnesses of F15, F19, F20 run on -/
+def _root_.SV.Stg.Patch.before : Patch := ⟨false, false, true⟩
 
 end SV.Sch
